@@ -73,9 +73,81 @@ CORPUS = ["bn_write_bin 0 0", "bn_read_bin .", "bn_write_str 2 0 10", "bn_write_
           "bn_read_str 36 zz", "bn_read_str 36 ZZ", "bn_write_str 4 -ff 16", "bn_write_str 3 -ff 16"]
 
 
+def enc_lines(rng, cv, n):
+    """field / point encodings: a valid stream and a malformed stream (all lengths, every tag byte, coordinates p-1, p, p+1, 2^256-1,
+    off-curve (x, y+1), compressed x with non-residue right-hand side)"""
+    from props.c03 import ptok, point
+    out = []
+    nb = (cv.p.bit_length() + 7) // 8
+    pool = [cv.mul(cv.g, rng.bits(256) % cv.n) for _ in range(4)]
+    for _ in range(n):
+        k = rng.below(100)
+        P = point(rng, cv, pool)
+        if k < 20:
+            pack = rng.below(2)
+            size = 1 if P is None else (nb + 1 if pack else 2 * nb + 1)
+            ln = rng.choice([size, size, size, size + 1, size + 17, max(0, size - 1), 0, 1])
+            out.append("ep_write_bin %d %d %s" % (ln, pack, ptok(rng, cv, P, "P")))
+        elif k < 45:     # honest encodings read back
+            if P is None:
+                out.append("ep_read_bin 00")
+            elif rng.chance(1, 2):
+                out.append("ep_read_bin 04%0*x%0*x" % (2 * nb, P[0], 2 * nb, P[1]))
+            else:
+                out.append("ep_read_bin %02x%0*x" % (rng.choice([2, 3]), 2 * nb, P[0]))
+        elif k < 60:     # every tag byte at each valid length
+            tag = rng.below(256)
+            x, y = P if P is not None else cv.g
+            ln = rng.choice([1, nb + 1, 2 * nb + 1])
+            body = "" if ln == 1 else ("%0*x" % (2 * nb, x) if ln == nb + 1 else "%0*x%0*x" % (2 * nb, x, 2 * nb, y))
+            out.append("ep_read_bin %02x%s" % (tag, body))
+        elif k < 75:     # out-of-range / off-curve coordinates
+            x, y = P if P is not None else cv.g
+            j = rng.below(6)
+            if j == 0:
+                x = rng.choice([cv.p, cv.p + 1, (1 << (8 * nb)) - 1, x + cv.p if x + cv.p < (1 << (8 * nb)) else cv.p])
+            elif j == 1:
+                y = rng.choice([cv.p, cv.p + 1, (1 << (8 * nb)) - 1, y + cv.p if y + cv.p < (1 << (8 * nb)) else cv.p])
+            elif j == 2:
+                y = (y + 1) % cv.p
+            elif j == 3:
+                x = rng.bits(8 * nb) % cv.p
+            elif j == 4:
+                y = (-y) % cv.p
+            if rng.chance(2, 3):
+                out.append("ep_read_bin 04%0*x%0*x" % (2 * nb, x, 2 * nb, y))
+            else:
+                out.append("ep_read_bin %02x%0*x" % (rng.choice([2, 3]), 2 * nb, x))
+        elif k < 85:     # wrong lengths
+            ln = rng.choice([0, 2, nb, nb + 2, 2 * nb, 2 * nb + 2, 2 * nb + 3, rng.below(2 * nb + 4)])
+            b = bytearray(rng.bytes(ln))
+            if ln:
+                b[0] = rng.choice([0, 2, 3, 4])
+            out.append("ep_read_bin %s" % (bytes(b).hex() or "."))
+        elif k < 93:
+            v = rng.choice([0, 1, cv.p - 1, cv.p, cv.p + 1, (1 << (8 * nb)) - 1, rng.bits(8 * nb)])
+            ln = rng.choice([nb, nb, nb, nb - 1, nb + 1, 0])
+            h = ("%0*x" % (2 * ln, v % (1 << (8 * ln)))) if ln else "."
+            out.append("fp_read_bin %s" % h)
+        else:
+            out.append("fp_write_bin %d %x" % (rng.choice([nb, nb, nb - 1, nb + 1, 0]), rng.bits(8 * nb) % cv.p))
+    return out
+
+
 def streams(ctx, scale=1):
     n = (2500 if ctx.tier == "quick" else 80000) * scale
     res = []
+    # field and point encodings on every curve of the base configuration
+    import props.c03 as c03
+    exe = c03._exe(ctx, "base")
+    lines = ["cfg"]
+    for cid in c03.CURVES["base"]:
+        kv = c03.curve_info(exe, cid)
+        if "p" not in kv:
+            continue
+        lines.append("ep_param %d" % cid)
+        lines += enc_lines(ctx.rng, c03.Cv(kv), (250 if ctx.tier == "quick" else 8000) * scale)
+    res.append({"name": "enc-base", "cfg": "base", "exe": exe, "lines": lines})
     for cfg in ("base", "w8"):
         exe = ctx.oracle(cfg)
         hdr, kv = _cfg(exe)
@@ -90,6 +162,9 @@ def search_streams(ctx, mfail):
 
 def replay_streams(ctx, rp):
     cfg = rp.get("config", "base")
+    if rp.get("context_lines"):
+        import props.c03 as c03
+        return [{"name": "replay", "cfg": cfg, "exe": c03._exe(ctx, cfg), "lines": ["cfg"] + rp["context_lines"] + rp.get("op_lines", [])}]
     return [{"name": "replay", "cfg": cfg, "exe": ctx.oracle(cfg), "lines": ["cfg"] + rp.get("op_lines", [])}]
 
 
